@@ -316,7 +316,9 @@ fn drive<'a>(mut it: TcpOptionsIterator<'a>, area: &[u8]) -> Trace {
 fn raw_tcp_header(rng: &mut Prng, opts: &[u8], payload: usize) -> Vec<u8> {
     let mut b = Vec::with_capacity(20 + opts.len() + payload);
     b.extend_from_slice(&rng.bytes(12));
-    b.push((((5 + opts.len() / 4) as u8) << 4) | (rng.u8() & 1));
+    // low nibble of octet 12: three reserved bits and NS - none of them is part of the data offset
+    let low = if rng.bool() { rng.u8() & 0x0f } else { rng.u8() & 1 };
+    b.push((((5 + opts.len() / 4) as u8) << 4) | low);
     b.extend_from_slice(&rng.bytes(7));
     b.extend_from_slice(opts);
     b.extend_from_slice(&rng.bytes(payload));
@@ -512,15 +514,35 @@ impl C13 {
                 let o = s.options();
                 (o.to_vec(), drive(s.options_iterator(), o))
             });
-            (hs, ts)
+            // the conversions into the owned header copy the option area
+            let mut owned: Vec<(&'static str, Option<Vec<u8>>)> = Vec::new();
+            owned.push(("TcpHeaderSlice::to_header", TcpHeaderSlice::from_slice(&bytes).ok().map(|s| s.to_header().options.as_slice().to_vec())));
+            owned.push(("TcpSlice::to_header", TcpSlice::from_slice(&bytes).ok().map(|s| s.to_header().options.as_slice().to_vec())));
+            owned.push(("TcpHeader::from_slice", TcpHeader::from_slice(&bytes).ok().map(|(h, _)| h.options.as_slice().to_vec())));
+            owned.push(("TcpHeader::read", TcpHeader::read(&mut std::io::Cursor::new(&bytes[..])).ok().map(|h| h.options.as_slice().to_vec())));
+            (hs, ts, owned)
         });
-        let (hs, ts) = match res {
+        let (hs, ts, owned) = match res {
             Ok(x) => x,
             Err(p) => {
                 self.panic(rep, "TcpHeaderSlice/TcpSlice::options_iterator", &p, &bytes);
                 return;
             }
         };
+        for (entry, o) in owned {
+            rep.evals += 1;
+            match o {
+                Some(o) if o == opts => rep.count("header_owned_paths.agree"),
+                other => {
+                    rep.violation(
+                        &format!("options_range|{}", entry),
+                        format!("{}: the owned header holds options {:?} but the area is {}", entry, other.map(|x| hex(&x)), hex(opts)),
+                        &bytes,
+                    );
+                    return;
+                }
+            }
+        }
         for (entry, r) in [("TcpHeaderSlice::options_iterator", hs), ("TcpSlice::options_iterator", ts)] {
             match r {
                 None => {
